@@ -13,8 +13,10 @@ from harness import common as C
 
 RULE = ('2-40 rows with distinct positive wavelengths (linear / log / random spacing, 0.3-30 um), non-uniform values, '
         'errors and (4-column) bin widths; each case is loaded from two row permutations (identity/reversed/random) '
-        'through ArraySpectrum, ObservedSpectrum (text) and TaurexSpectrum (HDF5); a random native model is binned to '
-        'the observation. distinct non-trivial = distinct (source, columns, spacing, permutation kind, number of rows) '
+        'through ArraySpectrum, ObservedSpectrum (text), TaurexSpectrum (HDF5) and taurex.util.hdf5.'
+        'taurex_hdf5_to_observation (the same HDF5 file); a random native model is binned to the observation; holder '
+        'stream: one Optimizer given 1-4 observations in turn (constructor, then set_observed; same / different row '
+        'counts, None in between, all four sources), its chisq_trans judged after every step. distinct non-trivial = distinct (source, columns, spacing, permutation kind, number of rows) '
         'with non-uniform errors/widths')
 ASSUMPTIONS = ['argsort = stable insertion sort by key (distinct wavelengths)',
                'np.loadtxt / np.savetxt(%.17g) and h5py round-trip float64 exactly (container I/O is external: files are '
@@ -86,7 +88,9 @@ SRC_SPECS = [
          vexternals={'np.loadtxt': dict(lean='loadtxt', args=['str'], ret='rows')},
          state=['self._obs_spectrum', 'self._bin_widths', 'self._bin_edges', 'self._wnwidths']),
 ]
-SOURCES = ['array', 'text', 'hdf5']
+# 'hdf5-util': the same TauREx-HDF5 file loaded through the OTHER public loader, taurex.util.hdf5.taurex_hdf5_to_observation
+# (what `taurex-plot` / scripts use); both are the model's `fromTaurex` rows handed to `load`
+SOURCES = ['array', 'text', 'hdf5', 'hdf5-util']
 
 
 def gen_rows(rng, k):
@@ -123,8 +127,8 @@ def gen_case(rng, k):
     spacing, rows = gen_rows(rng, k)
     n = len(rows)
     ncol = 3 if (k // 3) % 2 == 0 else 4
-    source = SOURCES[(k // 6) % 3]
-    if source == 'hdf5':
+    source = SOURCES[(k // 6) % len(SOURCES)]
+    if source.startswith('hdf5'):
         ncol = 4
     pk = ['identity', 'reversed', 'random', 'random'][(k // 2) % 4]
     p1 = perm_of(rng, n, pk)
@@ -165,6 +169,9 @@ def build(source, rows, tmp, tag):
         g['instrument_spectrum'] = v
         g['instrument_noise'] = e
         g['instrument_wnwidth'] = wnw
+    if source == 'hdf5-util':
+        from taurex.util.hdf5 import taurex_hdf5_to_observation
+        return taurex_hdf5_to_observation(fn), np.column_stack([wn, v, e, wnw]), 2
     return TaurexSpectrum(fn), np.column_stack([wn, v, e, wnw]), 2
 
 
@@ -237,7 +244,10 @@ def _eval(ctx, c, tmp):
     # expected rows: sorted by wavelength descending, each row kept whole (independent sort of python tuples)
     exp = np.array(sorted([tuple(r) for r in rows.tolist()], key=lambda r: -r[0]))
     wl = exp[:, 0]
-    tol = dict(rel=REL) if source != 'hdf5' else dict(rel=1e-11)   # hdf5 path converts wl -> wn -> wl
+    tol = dict(rel=REL) if not source.startswith('hdf5') else dict(rel=1e-11)   # hdf5 path converts wl -> wn -> wl
+    if ncol == 4:
+        q = float(np.max(rows[:, 3] / rows[:, 0]))
+        ctx.bucket('%s:max-width/centre:%s' % (source, '<0.02' if q < 0.02 else '0.02-0.2' if q < 0.2 else '>=0.2'))
     # (2) wavenumbers ascending and equal to 10000/wavelength
     if not np.all(np.diff(r1['wn']) > 0):
         ctx.violation('wn-not-ascending:' + source, 'wavenumber grid is not strictly ascending', full,
@@ -294,12 +304,204 @@ def _eval(ctx, c, tmp):
         ctx.malformed_outcome('native-model-grid-not-ordered')
 
 
+# ----------------------------------------------------------------------------- holder stream: the consumer of create_binner
+# "The binner created from the observation bins onto exactly those centres and widths, so a model binned to the observation
+# is aligned element by element with the observed values": the object that holds an observation together with the binner
+# created from it is the Optimizer (`Optimizer(observed=…)`, `set_observed`), and `chisq_trans` is where the binned model meets
+# `observed.spectrum` element by element.  One optimizer is given a HISTORY of observations; after every step it is judged
+# against Observation.Holder (TaurexModel/ObsHolder.lean, theorems holder_invariant / holder_aligned).
+_HFX = {}
+
+
+def holder_fixtures():
+    if _HFX:
+        return _HFX
+    from taurex.model import ForwardModel
+
+    class TableModel(ForwardModel):
+        """a forward model that is a fixed table (native wavenumber grid, spectrum); no parameters"""
+
+        def __init__(self, nc, ns):
+            super().__init__('TableModel')
+            self._nc = np.asarray(nc, float)
+            self._ns = np.asarray(ns, float)
+
+        def build(self):
+            pass
+
+        def initialize_profiles(self):
+            pass
+
+        @property
+        def nativeWavenumberGrid(self):
+            return self._nc
+
+        def model(self, wngrid=None, cutoff_grid=True):
+            return self._nc, self._ns, np.zeros((1, len(self._nc))), None
+
+    _HFX['TableModel'] = TableModel
+    return _HFX
+
+
+def wn_edges(rows, ncol):
+    """wavenumber edges of the bins of an observation given as rows (None if a wavelength edge is not positive)"""
+    r = np.array(sorted([tuple(x) for x in np.asarray(rows, float).tolist()], key=lambda x: -x[0]))
+    wl = r[:, 0]
+    if ncol == 4:
+        ed = np.concatenate([wl + r[:, 3] / 2, wl - r[:, 3] / 2])
+    else:
+        ed = np.concatenate([[wl[0] - (wl[1] - wl[0]) / 2], (wl[1:] + wl[:-1]) / 2, [wl[-1] + (wl[-1] - wl[-2]) / 2]])
+    if np.min(ed) <= 0:
+        return None
+    return 10000 / ed
+
+
+def gen_holder_case(rng, k):
+    steps = [1, 2, 2, 3, 2, 4][k % 6]
+    same_n = (k % 10) < 7                   # same number of rows: the shapes agree whichever binner is used
+    n0 = int(rng.integers(2, 25))
+    hist, lo, hi = [], np.inf, 0.0
+    for i in range(steps):
+        while True:
+            spacing, rows = gen_rows(rng, int(rng.integers(0, 3)))
+            if same_n:
+                if len(rows) < n0:
+                    continue
+                rows = rows[:n0]
+            ncol = 3 if rng.random() < 0.4 else 4
+            if i > 0 and rng.random() < 0.25 and hist[-1] is not None and hist[-1]['ncol'] == 4:
+                # the previous observation's centres with other widths / values (an instrument re-reduction)
+                prev = np.asarray(hist[-1]['rows'], float)
+                rows = prev.copy()
+                rows[:, 1] = rows[:, 1] * rng.uniform(0.5, 2.0, len(rows))
+                rows[:, 3] = np.minimum(rows[:, 3] * 10 ** rng.uniform(-0.5, 0.5, len(rows)), 1.5 * rows[:, 0])
+                ncol = 4
+            source = SOURCES[int(rng.integers(0, len(SOURCES)))]
+            if source.startswith('hdf5'):
+                ncol = 4
+            ed = wn_edges(rows[:, :ncol], ncol)
+            if ed is not None:
+                break
+        lo, hi = min(lo, float(ed.min())), max(hi, float(ed.max()))
+        hist.append(dict(source=source, ncol=ncol, rows=rows[rng.permutation(len(rows)), :ncol]))
+    # `None` in the history (Optimizer(observed=None) first, set_observed(None) in between); the last one is an observation
+    if steps >= 2 and k % 4 == 1:
+        hist.insert(int(rng.integers(0, steps)), None)
+    m = int(rng.integers(40, 300))
+    nc = np.unique(np.geomspace(lo * 0.9, hi * 1.1, m) if rng.random() < 0.5 else np.linspace(lo * 0.9, hi * 1.1, m))
+    ns = 10 ** rng.uniform(-4, -1) * (1 + 0.3 * np.sin(nc / rng.uniform(20, 2000)) + 0.1 * rng.standard_normal(len(nc)))
+    return dict(stream='holder', history=hist, nc=nc, ns=ns, same_n=bool(same_n))
+
+
+def eval_holder_case(ctx, c, tmp=None):
+    own = tmp is None
+    if own:
+        tmp = tempfile.mkdtemp(prefix='verif_c17_')
+    try:
+        _eval_holder(ctx, c, tmp)
+    finally:
+        if own:
+            shutil.rmtree(tmp, ignore_errors=True)
+
+
+def _eval_holder(ctx, c, tmp):
+    from taurex.optimizer.optimizer import Optimizer
+    import logging
+    from taurex.log.logger import root_logger
+    root_logger.setLevel(logging.CRITICAL + 1)
+    TableModel = holder_fixtures()['TableModel']
+    nc = np.asarray(c['nc'], float)
+    ns = np.asarray(c['ns'], float)
+    hist = c['history']
+    full = dict(c)
+    objs, enc, desc = [], [], []
+    for i, h in enumerate(hist):
+        if h is None:
+            objs.append(None)
+            enc.append('0')
+            desc.append(None)
+            continue
+        rows = np.asarray(h['rows'], float)
+        try:
+            o, stored, kind = build(h['source'], rows, tmp, 'h%d' % i)
+        except Exception as e:
+            ctx.violation('load-raises:' + h['source'], 'loading a well-formed observation raised %r' % (e,), full)
+            return
+        objs.append(o)
+        enc.append('1 ' + C.N(kind) + ' ' + C.LL(stored.tolist()))
+        desc.append((h['source'], h['ncol'], len(rows)))
+    real = [d for d in desc if d is not None]
+    ctx.case(key=('holder', len(hist), tuple(real), None in desc),
+             sample=dict(stream='holder', history=[None if d is None else '%s/%dcol/%d rows' % d for d in desc]),
+             bucket='holder:history-length=%d' % len(hist))
+    ctx.bucket('holder:row-counts-' + ('equal' if len(set(d[2] for d in real)) == 1 else 'differ'))
+    if None in desc:
+        ctx.bucket('holder:None-first' if desc[0] is None else 'holder:None-in-between')
+    model = TableModel(nc, ns)
+    scale = float(np.max(np.abs(ns)))
+    try:
+        opt = Optimizer('holder', observed=objs[0], model=model)
+    except Exception as e:
+        ctx.violation('holder-raises:init', 'Optimizer(observed=…, model=…) raised %r' % (e,), full)
+        return
+    for step in range(len(hist)):
+        small = dict(full, step=step)
+        cur = objs[step]
+        try:
+            if step > 0:
+                opt.set_observed(cur)
+            if cur is None:
+                ctx.bucket('holder:step:holds-None(unjudged)')
+                continue
+            opt.compile_params()        # what fit() does first; the table model and the observations have no parameters
+            with np.errstate(all='ignore'):
+                chi = float(opt.chisq_trans([], cur.spectrum, cur.errorBar))
+        except Exception as e:
+            ctx.violation('holder-raises:step', 'set_observed / chisq_trans raised %r at step %d of the history'
+                          % (e, step), small)
+            return
+        # the property's own relation, on the real objects: the binner created from THIS observation
+        ref = np.asarray(cur.create_binner().bin_model(model.model(wngrid=cur.wavenumberGrid))[1], float)
+        v, e = np.asarray(cur.spectrum, float), np.asarray(cur.errorBar, float)
+        if not np.all(np.isfinite(ref)):
+            ctx.malformed_outcome('holder:bin-without-native-overlap')
+            continue
+        ctx.bucket('holder:step:' + ('first' if step == 0 else 'replaced'))
+        delta = 1e-9 * (np.abs(ref) + scale)
+        atol = float(np.sum((2 * np.abs(v - ref) * delta + delta ** 2) / e ** 2))
+        chi_ref = float(np.sum(((v - ref) / e) ** 2))
+        d = ctx.model().call('c17.holder', C.L(nc), C.L(ns), enc[0], C.N(step) + ''.join(' ' + t for t in enc[1:step + 1]))
+        m_obs, m_bin = d.bool(), d.bool()
+        m_bgrid, m_bwidth, m_binned = np.array(d.list()), np.array(d.list()), np.array(d.list())
+        m_chi = d.opt(d.flt)
+        ctx.check_eq('Optimizer holds an observation and a binner vs Observation.Holder', (True, True), (m_obs, m_bin), small)
+        ctx.check_close('Optimizer.chisq_trans after a history of set_observed vs Observation.Holder.chisq', chi,
+                        float('nan') if m_chi is None else m_chi, small, rel=1e-8, abs_=atol)
+        ctx.check_close('model binned with create_binner() of the held observation vs Observation.Holder.binModel', ref,
+                        m_binned, small, rel=1e-10, abs_=1e-12 * scale)
+        b = getattr(opt, '_binner', None)
+        if b is not None and hasattr(b, '_wngrid') and hasattr(b, '_wngrid_width'):
+            ctx.check_close('Optimizer binner (_wngrid, _wngrid_width) vs Observation.Holder.binner',
+                            np.concatenate([np.asarray(b._wngrid, float), np.asarray(b._wngrid_width, float)]),
+                            np.concatenate([m_bgrid, m_bwidth]), small, rel=1e-11 if desc[step][0].startswith('hdf5') else REL)
+        if not C.close(chi, chi_ref, rel=1e-8, abs_=atol):
+            ctx.violation('optimizer-binner-not-of-current-observation',
+                          'after step %d of a history of observations given to one optimizer, chisq_trans is not the '
+                          'chi-squared of the model binned with the binner created from the observation it now holds '
+                          '(the binned model is not aligned with the observed values)' % step, small,
+                          dict(step=step, chisq_trans=chi, expected=chi_ref, tolerance=atol,
+                               history=[None if x is None else '%s/%dcol/%d rows' % x for x in desc]))
+            return
+
+
 def run(ctx):
     rng = ctx.rng
     tmp = tempfile.mkdtemp(prefix='verif_c17_')
     try:
         for k in range(ctx.n(1800, 30000)):
             eval_case(ctx, gen_case(rng, k), tmp)
+        for k in range(ctx.n(240, 4000)):
+            eval_holder_case(ctx, gen_holder_case(rng, k), tmp)
         # malformed stream: outside the quantifier, recorded only
         from taurex.data.spectrum.array import ArraySpectrum
         for k in range(ctx.n(12, 60)):
@@ -335,6 +537,8 @@ def search(ctx):
     try:
         for k in range(ctx.n(2000, 10000)):
             eval_case(ctx, gen_case(ctx.rng, k), tmp)
+            if k % 8 == 0:
+                eval_holder_case(ctx, gen_holder_case(ctx.rng, k // 8), tmp)
             if ctx.violations:
                 return
     finally:
@@ -344,4 +548,8 @@ def search(ctx):
 def replay(ctx, case):
     if isinstance(case.get('case'), dict):      # a replay file written by ./check wraps the input
         case = case['case']
+    if case.get('stream') == 'holder':
+        case = {k: v for k, v in case.items() if k != 'step'}
+        eval_holder_case(ctx, case)
+        return
     eval_case(ctx, case)
